@@ -52,6 +52,10 @@ DEFAULT_FEATS = dict(
     invert=False,
     const_index_ge6=False,
     ifexp_else_load=False,
+    global_read_before_call=False,
+    void_tail_value=False,
+    tail_other_call=False,
+    tail_early_return=False,
     bool_const_fold=False,
 )
 
@@ -68,6 +72,28 @@ def _structs():
     return out
 
 
+def tail_guard(body, funcs, feats):
+    """Lines to append to a void function body so that the tail-call rewrite is only exercised where the pinned
+    tree handles it: the rewrite applies when the last statement is a bare call of a user function; it is unsound
+    (known findings) when the function also contains another call / a for-list loop, an early return, or when the
+    callee returns a value.  `funcs`: {name: returns_value}."""
+    import re as _re
+
+    if not body:
+        return []
+    last = body[-1]
+    if last.startswith("     "):
+        return []  # nested deeper than the function body: not the last statement of the function
+    m = _re.match(r"^(\w+)\(", last.strip())
+    if not m or m.group(1) not in funcs:
+        return []
+    other_call = any(_re.search(r"\b" + _re.escape(n) + r"\(", l) for l in body[:-1] for n in funcs) or any(" in [" in l and l.strip().startswith("for ") for l in body)
+    early_return = any(l.strip().startswith("return") for l in body[:-1])
+    if (other_call and not feats.get("tail_other_call")) or (early_return and not feats.get("tail_early_return")) or (funcs[m.group(1)] and not feats.get("void_tail_value")):
+        return ["    pass"]
+    return []
+
+
 class Fn:
     def __init__(self, name, params, ret):
         self.name = name
@@ -75,6 +101,7 @@ class Fn:
         self.ret = ret
         self.calls = []  # names of functions this one calls (for depth limits)
         self.depth = 0
+        self.writes_globals = False
 
 
 class Names:
@@ -117,6 +144,7 @@ class Gen:
         self.used = set()
         self.marker = 0
         self.max_depth = rng.choice([1, 1, 2, 2, 2])
+        self._forlist = 0
 
     # ------------------------------------------------------------------ atoms
     def const(self):
@@ -237,7 +265,8 @@ class Gen:
                 return f"({l} / {self.r.choice(['2', '4', '0.5', '8', '-2', '3'])})"
             if op == "**":
                 self.used.add("pow")
-                return f"({self.atom(vs)} ** {self.r.choice(['2', '3'])})"
+                base = self.r.choice(vs) if vs and self.r.random() < 0.5 else self.r.choice([self.input_cell(), self.input_cell("small"), "1.5", "3", "-2"])
+                return f"({base} ** {self.r.choice(['2', '3'])})"
             return f"({l} {op} {self.expr(vs, d + 1, calls)})"
         if c < 0.64 and self.f["boolops"]:
             self.used.add("bool_value")
@@ -291,8 +320,10 @@ class Gen:
             if n == 1:
                 idx = f"({dev}.Idle * 0)"
             return f"[{arr}][{idx}]"
-        if calls and self.f["calls"]:
-            fs = [f for f in self.funcs if f.ret and f.depth < 3]
+        if calls and self.f["calls"] and (self._forlist == 0 or self.f["for_list_call"]):
+            # a function that writes globals is only called as a statement: in `g + f()` python reads g
+            # before the call, the emitted code after it (known finding, switch global_read_before_call)
+            fs = [f for f in self.funcs if f.ret and f.depth < 3 and (not f.writes_globals or self.f["global_read_before_call"])]
             if fs:
                 f = self.r.choice(fs)
                 self.used.add("call_in_expr")
@@ -312,6 +343,9 @@ class Gen:
     def nocopy(self, e, vs):
         if not self.f["copy_assign"] and e.strip("()") in vs:
             return f"({e} + 1)"
+        if "." in e and e.replace(".", "").isalnum() and e.split(".")[0] in ("Color", "DisplayMode", "SortingClass"):
+            # a bare enum member assigned to a variable turns the name into an alias of the enum (known finding)
+            return f"({e} + 0)"
         return e
 
     # ------------------------------------------------------------------ statements
@@ -421,18 +455,20 @@ class Gen:
                 out.append(f"{pad}while {w} < {self.r.choice(['2', '3'])}:")
                 out.append(f"{pad}    {w} += 1")
                 out += self.block(vs + [w], ind + 1, depth + 1, "while", fn, budget, assignable)
-            elif c < 0.81 and depth < 2 and self.f["for_list"] and (loop != "forlist" or self.f["for_list_nested"]):
+            elif c < 0.81 and depth < 2 and self.f["for_list"] and (self._forlist == 0 or self.f["for_list_nested"]):
                 self.used.add("for_list")
-                if loop == "forlist":
+                if self._forlist:
                     self.used.add("for_list_nested")
                 i = self.names.new("e")
                 out.append(f"{pad}for {i} in [{', '.join(self.const() for _ in range(self.r.randint(1, 4)))}]:")
+                self._forlist += 1
                 out += self.block(vs + [i], ind + 1, depth + 1, "forlist", fn, budget, assignable)
-            elif c < 0.88 and self.funcs and self.f["calls"] and (loop != "forlist" or self.f["for_list_call"]):
+                self._forlist -= 1
+            elif c < 0.88 and self.funcs and self.f["calls"] and (self._forlist == 0 or self.f["for_list_call"]):
                 f = self.r.choice([g for g in self.funcs if g.depth < 3] or self.funcs)
                 self._cur_calls.append(f)
                 self.used.add("call_stmt")
-                if loop == "forlist":
+                if self._forlist:
                     self.used.add("for_list_call")
                 args = self.args(vs, f)
                 if f.ret and self.r.random() < 0.7 and len(vs) < self.max_live:
@@ -517,7 +553,10 @@ class Gen:
             lines += body
             if ret:
                 lines.append(f"    return {self.expr(params + gl, 1, False)}")
+            if not ret:
+                lines += tail_guard(body, {g.name: g.ret for g in self.funcs}, self.f)
             f.depth = 1 + max([g.depth for g in self._cur_calls], default=0)
+            f.writes_globals = bool(writes) or any(g.writes_globals for g in self._cur_calls)
             f.calls = [g.name for g in self._cur_calls]
             self.funcs.append(f)
         self._cur_calls = []
